@@ -114,7 +114,7 @@ impl hb_aat_map_builder_t {
                 end: feature.end,
                 info: feature_info_t {
                     kind: HB_AAT_LAYOUT_FEATURE_TYPE_CHARACTER_ALTERNATIVES as u16,
-                    setting: u16::try_from(feature.value).unwrap(),
+                    setting: feature.value as u16,
                     is_exclusive: true,
                 },
             });
